@@ -3,7 +3,7 @@
    implementation returned.  Only failing indices and the largest scaled
    deviation leave Coq. *)
 From Coq Require Import List ZArith Bool PrimFloat.
-From PyStoG Require Import WindowM.
+From PyStoG Require Import WindowM EntryM.
 From PyStoG Require Import Num NumF ConverterM.
 Import ListNotations.
 
@@ -277,7 +277,8 @@ Definition chk_add (c : rawcase) : float :=
                 s_recip := (lnth f 3, lnth f 4, lnth f 5); s_sq := (lnth f 6, lnth f 7, lnth f 8);
                 t_sq := None; t_qsq := None; t_ft := None; t_sqft := None; t_fq := None;
                 t_gr := None; t_grft := None; t_grl := None; t_gk := None |} in
-  let post := add_dataset cfg pre d in
+  (* zs[8] = 4: the entry carried an unknown function name and was rejected (EntryM.reject_entry) *)
+  let post := if Z.eqb (znth z 8) 4 then reject_entry pre d else add_dataset cfg pre d in
   fmax (dev3 (s_recip post) (out c) 0)
        (fmax (dev3 (s_sq post) (out c) 3)
              (devs dev_exact [s_xmin post; s_xmax post] (lnth (out c) 6))).
